@@ -13,14 +13,6 @@ Import ListNotations.
 (* the model's strategies are exactly the members of CountingStrategy, in the order of the class body and of COUNTING_STRATEGIES *)
 Lemma strategies_are_the_enum : map cs_of all_strategies = CS_all /\ CS_COUNTING_STRATEGIES = CS_all.
 Proof. split; reflexivity. Qed.
-(* every member of ReadAssignmentType is the image of exactly one assignment type of the model *)
-Lemma rat_of_onto : forall x:RAT, exists t, rat_of t = x.
-Proof. intros x; destruct x;
-  [exists Unique|exists Noninformative|exists Intergenic|exists Ambiguous|exists UniqueMinor|exists Inconsistent
-  |exists InconsNonIntronic|exists InconsAmbiguous|exists Suspended]; reflexivity. Qed.
-Lemma rat_of_inj : forall a b, rat_of a = rat_of b -> a = b.
-Proof. intros a b; destruct a, b; simpl; intros H; try reflexivity; discriminate H. Qed.
-
 (* the classification predicates of the model are the source's is_unique / is_inconsistent / is_unassigned *)
 Lemma classes_are_the_sources t :
   is_unique t = rat_mem (rat_of t) RAT_is_unique /\ is_inconsistent t = rat_mem (rat_of t) RAT_is_inconsistent /\
@@ -76,7 +68,3 @@ Corollary weight_tk_is_the_source s t k :
   else if rat_mem (rat_of t) RAT_is_inconsistent then py_process_inconsistent fl (rat_of t) (Z.of_nat k)
   else 0%Q.
 Proof. destruct (weights_are_the_sources s t k) as (A & I & _). cbv zeta. rewrite <- A, <- I. destruct t; reflexivity. Qed.
-
-Lemma grouped_format_is_the_source :
-  GOF_all = [GOF_matrix; GOF_linear; GOF_both] /\ map fmt_of GOF_all = [(true, false); (false, true); (true, true)].
-Proof. split; reflexivity. Qed.
